@@ -1,6 +1,7 @@
 import SctpVerif.Proofs.Reset.Perf
 import SctpVerif.Proofs.Reset.Final
 import SctpVerif.Proofs.Reset.Keeps
+import SctpVerif.Proofs.Reset.Reopen
 /-!
 Helper lemmas for C14 (stream reset), split over `Proofs/Reset/*.lean`:
 `Basic` (handlers of RE-CONFIG parameters: what they cannot touch), `Pop` (what one pass of the write loop takes out of
